@@ -73,6 +73,8 @@ func newWorld() *world {
 	srv.AddFunctionType(model.FunctionTypeLoadControlNodeData, true, false)
 	cli := e1.GetOrAddFeature(model.FeatureTypeTypeLoadControl, model.RoleTypeClient)
 	_ = cli
+	// [1]:3 a Generic server without operations: the destination of the sweep's reads (every data function)
+	_ = e1.GetOrAddFeature(model.FeatureTypeTypeGeneric, model.RoleTypeServer)
 	w.local.AddEntity(e1)
 	srv.SetData(model.FunctionTypeLoadControlLimitConstraintsListData, &model.LoadControlLimitConstraintsListDataType{
 		LoadControlLimitConstraintsData: []model.LoadControlLimitConstraintsDataType{constraintItem(1, 10), constraintItem(2, 20)},
@@ -194,6 +196,11 @@ type outAbs struct {
 
 func abstractOut(o outMsg) outAbs {
 	a := outAbs{peer: o.peer, errn: -1, ref: -1}
+	defer func() {
+		if r := recover(); r != nil { // a panicking decoder is the implementation's fault, found on the inbound side
+			a.cls = "undecodable"
+		}
+	}()
 	var d model.Datagram
 	if err := json.Unmarshal(o.raw, &d); err != nil {
 		a.cls = "undecodable"
